@@ -178,6 +178,7 @@ def mon_sched(case, verdict, chk, points=None):
 
     # ---- 2. every held run against the delay-free result
     soft = None
+    possible = None
     base_key = case.get("base_key", "")
     base = base_key.split(":")[0]
     base_res = case.get("result", {})
@@ -192,6 +193,14 @@ def mon_sched(case, verdict, chk, points=None):
             if soft:
                 # same output, different data, and the workflow has a soft-optional member: the data is not fixed by the meaning
                 chk.hist["sched:soft-optional-data-differs"] = chk.hist.get("sched:soft-optional-data-differs", 0) + 1
+                continue
+        if base == "output" and res.get("output_id") and res.get("output_id") != base_res.get("output_id"):
+            if possible is None:
+                possible = possibly_producible(case)
+            if res["output_id"] in possible and base_res.get("output_id") in possible:
+                # two declared outputs that the scripted behaviours both allow: the workflow's meaning does not fix a single
+                # result (whichever becomes producible first is returned), the property does not speak about it
+                chk.hist["sched:several-producible-outputs-not-judged"] = chk.hist.get("sched:several-producible-outputs-not-judged", 0) + 1
                 continue
         pk, fn = where(sw["point"])
         kind = (pts.get(sw["point"]) or {}).get("kind", sw["point"].rsplit(":", 1)[-1])
@@ -210,6 +219,48 @@ def mon_sched(case, verdict, chk, points=None):
                                                 "hold_fired": sw.get("held")},
                                  "expected": {"result_without_delay": base_res, "meaning": want},
                                  "observed": res, "delayed_result": res, "delayed_log": sw.get("log")})
+
+
+def possibly_producible(case):
+    """output ids that the scripted behaviours do not rule out (an over-approximation: whether the producing steps get to run at
+    all is not looked at).  A declared output is ruled out when one of its non-optional references names an output / stage of a
+    step that the step's scripted behaviour cannot produce."""
+    beh = case.get("behaviours") or {}
+    steps = {s["id"]: s for s in (case.get("wf") or {}).get("steps", [])}
+
+    def can(step_id, stage, out):
+        st = steps.get(step_id)
+        if st is None:
+            return True
+        b = beh.get(st.get("src") or step_id, {})
+        oc = b.get("outcome", "success")
+        if stage == "outputs":
+            if b.get("deploy_fail") or b.get("start_fail") or oc in ("crash", "hang"):
+                return False
+            return out is None or out == oc
+        if stage == "crashed":
+            return oc == "crash" or bool(b.get("start_fail"))
+        if stage == "deploy_failed":
+            return bool(b.get("deploy_fail"))
+        return True  # disabled / closed / enabling / starting: depends on gates and on the other steps, not decided here
+
+    possible = set()
+    for oid, inval in ((case.get("wf") or {}).get("outputs") or {}).items():
+        try:
+            rs = M.refs(inval)
+        except Exception:
+            possible.add(oid)
+            continue
+        ok = True
+        for path, optional, _ in rs:
+            if optional or len(path) < 3 or path[0] != "steps":
+                continue
+            if not can(path[1], path[2], path[3] if len(path) > 3 else None):
+                ok = False
+                break
+        if ok:
+            possible.add(oid)
+    return possible
 
 
 def _sample(c):
